@@ -292,3 +292,25 @@ func TestC14Stress(t *testing.T) {
 			pbt.V("stale-version-in-group", "%d of %d alerts: the aggregation group holds the older of two back-to-back versions, e.g. %s", len(stale), n, stale[0]))
 	}
 }
+
+// C14Schedule: the E4 schedules of C06Schedule (group creators, the maintenance sweep and flush completion parked and
+// released at the hook points) judged for C14's clause "a resolve-then-fire is never dropped from its group": after
+// everything was released every firing alert of the provider is held by exactly one live group and gets notified.
+func TestC14Schedule(t *testing.T) {
+	pbt.Run(t, pbt.Spec[c06Scenario]{
+		Property: "C14", Name: "C14Schedule",
+		Rule: "the scenarios of C06Schedule (fire / resolve / re-fire of up to four label sets put without waiting; dispatcher goroutines parked at group.loaded / group.created / maint.destroyed / maint.deleted / flush.notified and released in a generated order). Judged here: after draining, the last submitted firing version of every alert is held by exactly one live aggregation group and is notified (kinds alert-not-in-one-group, group-without-running-timer). Non-trivial: two goroutines were inside groupAlert for creation at once.",
+		Gen:  genC06,
+		Exec: func(sc c06Scenario) pbt.Result {
+			res := execC06(sc)
+			kept := res.Violations[:0]
+			for _, v := range res.Violations {
+				if v.Kind == "alert-not-in-one-group" || v.Kind == "group-without-running-timer" || v.Kind == "harness" {
+					kept = append(kept, v)
+				}
+			}
+			res.Violations = kept
+			return res
+		},
+	})
+}
